@@ -12,4 +12,7 @@ type VerifPullFn = packageimport.VerifPullFn
 
 // NewVerifRequestManager returns a real RequestManager whose pull function is scripted;
 // the result also has the VerifReceivers accessor.
-var NewVerifRequestManager = packageimport.NewVerifRequestManager
+var (
+	NewVerifRequestManager              = packageimport.NewVerifRequestManager
+	NewVerifRequestManagerWithOverrides = packageimport.NewVerifRequestManagerWithOverrides
+)
